@@ -113,9 +113,11 @@ def _write_history(path, fmt, traj, blocks, cell, time, mode="w", ragged=None, c
     outcome = None
     try:
         for bi, b in enumerate(blocks):
-            if ragged is not None and ragged[0] == bi:
+            if ragged is not None and ragged[0] == bi and outcome is None:
                 kind = ragged[1]
-                try:
+                after = ragged[2] if len(ragged) > 2 else "close"
+
+                def bad_write():
                     if kind in ("atoms+1", "atoms-1"):
                         other = _traj(traj.n_atoms + (1 if kind == "atoms+1" else -1), cell, 99)
                         writers.write_block(f, fmt, other, lo, lo + b, with_cell=cell, with_time=time, first=(bi == 0))
@@ -129,10 +131,23 @@ def _write_history(path, fmt, traj, blocks, cell, time, mode="w", ragged=None, c
                         writers.write_block(f, fmt, traj, lo, lo + b, with_cell=cell, with_time=False, first=(bi == 0))
                     elif kind == "time-add":
                         writers.write_block(f, fmt, traj, lo, lo + b, with_cell=cell, with_time=True, first=(bi == 0))
+
+                try:
+                    bad_write()
                     outcome = "accepted"
                 except Exception as e:  # noqa
                     outcome = "refused:%s" % type(e).__name__
-                break
+                if outcome == "accepted" or after == "close":
+                    break
+                if after == "retry":
+                    # the caller repeats the refused call: it must be refused again
+                    try:
+                        bad_write()
+                        outcome = "accepted-on-retry"
+                    except Exception as e:  # noqa
+                        pass
+                    break
+                # after == "continue": the refused call must have had no effect, the remaining well-formed writes go on
             writers.write_block(f, fmt, traj, lo, lo + b, with_cell=cell, with_time=time, first=(bi == 0))
             lo += b
             accepted = lo
@@ -215,22 +230,26 @@ def incremental_job(args):
                 if base in ("h5", "nc", "gro"):
                     kinds.append("time-drop" if time else "time-add")
                 for pos in range(1, len(blocks)):
-                    for kind in kinds:
+                    for kind, after in itertools.product(kinds, ("close", "retry", "continue")):
                         n_exec += 1
                         if os.path.isdir(p):
                             shutil.rmtree(p)
                         elif os.path.exists(p):
                             os.remove(p)
-                        rep2 = dict(rep, kind="ragged", ragged=[pos, kind])
+                        rep2 = dict(rep, kind="ragged", ragged=[pos, kind, after])
                         rtag = "%s|ragged=%s|cell=%s|time=%s" % (fmt, kind, cell, time)
+                        if after != "close":
+                            rtag += "|then=" + after
                         try:
-                            accepted, outcome = _write_history(p, base, traj, blocks, cell, time, ragged=(pos, kind))
+                            accepted, outcome = _write_history(p, base, traj, blocks, cell, time, ragged=(pos, kind, after))
                         except Exception as e:  # noqa
-                            viol.append((rtag + "|close-raised", "close after refused write raised %s: %s" % (type(e).__name__, str(e)[:120]), rep2))
+                            what = "close after refused write" if after != "continue" else "a well-formed write (or close) after a refused write"
+                            viol.append((rtag + "|close-raised", "%s raised %s: %s (blocks %s, refused at %d)" % (what, type(e).__name__, str(e)[:120], blocks, pos), rep2))
                             continue
                         ragged_stats[outcome.split(":")[0]] = ragged_stats.get(outcome.split(":")[0], 0) + 1
-                        if outcome == "accepted":
-                            viol.append((rtag + "|not-refused", "%s accepted a write that makes the file ragged (%s at block %d of %s)" % (fmt, kind, pos, blocks), rep2))
+                        if outcome.startswith("accepted"):
+                            viol.append((rtag + "|not-refused", "%s %s a write that makes the file ragged (%s at block %d of %s)" % (
+                                fmt, "accepted" if outcome == "accepted" else "refused once but accepted on the second attempt", kind, pos, blocks), rep2))
                             continue
                         try:
                             got = _load(p, base, top)
@@ -241,7 +260,7 @@ def incremental_job(args):
                             viol.append((rtag + "|after-refusal|" + dif.split(":")[0].split(" ")[0],
                                          "after a refused %s write (%d frames accepted, blocks %s): %s" % (kind, accepted, blocks, dif), rep2))
                         else:
-                            ok.add((n, tuple(blocks), pos, kind))
+                            ok.add((n, tuple(blocks), pos, kind, after))
     finally:
         shutil.rmtree(d, ignore_errors=True)
     return viol, n_exec, len(ok), ragged_stats
@@ -397,12 +416,12 @@ def hist_one(ctx, rep):
             return _diff(_load(p, base, traj.topology), ref)
         except Exception as e:  # noqa
             return "raised %s" % type(e).__name__
-    pos, kind = rep["ragged"]
+    rg = tuple(rep["ragged"])
     try:
-        accepted, outcome = _write_history(p, base, traj, blocks, rep["cell"], rep["time"], ragged=(pos, kind))
+        accepted, outcome = _write_history(p, base, traj, blocks, rep["cell"], rep["time"], ragged=rg)
     except Exception as e:  # noqa
         return "close raised %s" % type(e).__name__
-    if outcome == "accepted":
+    if outcome.startswith("accepted"):
         return "not refused"
     try:
         return _diff(_load(p, base, traj.topology), ref[:accepted])
